@@ -93,12 +93,46 @@ def _correspondence_once(ctx, rep=0):
             ctx.case(key=('bitwise', j.e.name, j.inverse), branch='identity-bitwise', nontrivial=True, n=len(got))
             if got != want:
                 ctx.disagree('C07/identity-bitwise', {'entry': j.e.name, 'inverse': j.inverse}, got[:8], want[:8], 'identity features are not bit-identical to the inputs')
+    context_history(ctx, gen)
+
+
+def context_history(ctx, gen, report=None):
+    """the parameters of the transformed features are a function of the identity features AND THE CONTEXT of the call: on ONE
+    layer, without autograd, the same inputs evaluated under a first and then a second context must give, for the second call, bit for
+    bit what a pristine copy of the layer gives for (inputs, second context) — also when only the transformed features change"""
+    import copy
+    for e in mask_entries(ctx):
+        if e.ctx is None:
+            continue
+        t = tcorr.build(e, gen, torch.float64, 'normal')
+        for inverse in (False, True):
+            x = R.make_inputs(e, 2, gen, torch.float64, inverse)
+            c1 = R.make_context(e, 2, gen, torch.float64)
+            c2 = R.make_context(e, 2, gen, torch.float64)
+            pristine = copy.deepcopy(t)
+            with torch.no_grad():
+                k1, _, _ = R.impl_call(t, x, c1, inverse)
+                k2, y2, l2 = R.impl_call(t, x, c2, inverse)
+                kf, yf, lf = R.impl_call(pristine, x, c2, inverse)
+            case = {'entry': e.name, 'inverse': inverse, 'history': ['call(x, c1)', 'call(x, c2)']}
+            bad = (k2 != kf) or (k2 == 'ok' and not (torch.equal(y2, yf) and torch.equal(l2, lf)))
+            if report is None:
+                ctx.case(key=('ctx-history', e.name, inverse), branch='context-history', nontrivial=True, n=int(x.numel()))
+                if bad:
+                    ctx.disagree('C07/context-history', case, 'second call differs from a pristine layer on (x, c2)', 'identical',
+                                 'parameters do not depend on the context of the call (stale conditioner output)')
+            elif bad:
+                report('the second of two no-grad calls with the same inputs and a different context returns what the first context gave', case,
+                       {'class': e.name.split('/')[0], 'symptom': 'context-ignored'})
 
 
 def search(ctx):
     """the property's oracle on the implementation: bitwise identity, conditioner input, dependence pattern"""
     import nflows.transforms as T
     gen = torch.Generator().manual_seed(ctx.seed + 77)
+    seen_ch = set()
+    context_history(ctx, torch.Generator().manual_seed(ctx.seed + 78),
+                    report=lambda what, case, match: (ctx.fail(what, case, match=match), seen_ch.add(match['class'])) if match['class'] not in seen_ch else None)
     for e in mask_entries(ctx):
         t = tcorr.build(e, gen, torch.float64, 'normal')
         mask = e.extra['mask']
